@@ -56,5 +56,25 @@ fn main() {
         check(&[vals[k].clone(), a.clone(), vals[j].clone()], 0x00, &mut fails);
         if fails > 5 { break; }
     }
+    // reserved bits are ignored on receipt (C02): a value whose reserved field is not zero decodes to the same attribute
+    let wire = |t: u16, v: &[u8]| -> Vec<u8> {
+        let mut m = vec![0x01u8, 0x01, 0x00, (4 + v.len() + (4 - v.len() % 4) % 4) as u8, 0x21, 0x12, 0xA4, 0x42]; m.extend_from_slice(&[3u8; 12]);
+        m.extend_from_slice(&t.to_be_bytes()); m.extend_from_slice(&(v.len() as u16).to_be_bytes()); m.extend_from_slice(v);
+        while m.len() % 4 != 0 { m.push(0); }
+        m
+    };
+    let reserved: Vec<(&str, Vec<u8>, StunAttribute)> = vec![
+        ("CHANNEL-NUMBER with RFFU bits", wire(0x000C, &[0x40, 0x01, 0xAB, 0xCD]), ChannelNumber::new(0x4001).into()),
+        ("MAPPED-ADDRESS with a non-zero first octet", wire(0x0001, &[0x7E, 0x01, 0x12, 0x34, 192, 0, 2, 1]), MappedAddress::new(IpAddr::V4(Ipv4Addr::new(192, 0, 2, 1)), 0x1234).into()),
+        ("REQUESTED-TRANSPORT with RFFU bits", wire(0x0019, &[17, 0xFF, 0xEE, 0xDD]), RequestedTrasport::default().into()),
+    ];
+    for (name, bytes, want) in reserved {
+        match MessageDecoderBuilder::default().build().decode(&bytes) {
+            Ok((msg, _)) => {
+                if msg.attributes().len() != 1 || format!("{:?}", msg.attributes()[0]) != format!("{:?}", want) { println!("WITNESS: {}: decoded as {:?}, expected {:?}", name, msg.attributes(), want); fails += 1; }
+            }
+            Err(e) => { println!("WITNESS: {}: rejected: {:?}", name, e); fails += 1; }
+        }
+    }
     if fails == 0 { println!("ok: {} values round-trip singly and in sequences", vals.len()); } else { std::process::exit(1); }
 }
